@@ -55,6 +55,10 @@ def files(cq, ct):
 def cuts(cq, ct, sq=6, st=10):
     return {"name": "S-container:cuts", Q: ["cuts", "--cases", str(cq), "--size", str(sq)], T: ["cuts", "--cases", str(ct), "--size", str(st)], "seeds_t": 2}
 
+def introspect(cq, ct):
+    return {"name": "S-introspect:len/children + navigation histories", Q: ["introspect", "--cases", str(cq)], T: ["introspect", "--cases", str(ct), "--size", "24"], "seeds_t": 4}
+
+
 PROPS = {
     "C01": {
         "module": "Sfv.Props.C01",
@@ -80,6 +84,12 @@ PROPS = {
         "tables": ["tables_prim_widths"],
         "suites": [xver(6, 40), codec(3, 15, filt="Fam"), codec(3, 15, filt="Ver"), PACKED],
         "oracle": ["C18"],
+    },
+    "C17": {
+        "module": "Sfv.Props.C17",
+        "tables": [],
+        "suites": [introspect(8, 40)],
+        "oracle": ["C17"],
     },
     "C04": {
         "module": "Sfv.Props.C04",
